@@ -341,6 +341,11 @@ def install_wrapper_stubs(E, ctx, R, my, opts):
             key_ok(k, node)
             access('_cache[key]')
             s = R.cur()
+            if st.pop('cache_seen_present', False) and E.choose([('kept', None), ('evicted', None)],
+                                                               'read after membership test') == 'evicted':
+                # check-then-read on a caller-supplied bounded mapping shared between threads: the entry can vanish
+                # between `key in _cache` and `_cache[key]`
+                E.throw('KeyError', origin='evicted-after-own-store')
             if st.get('stored_by_me') and E.choose([('kept', None), ('evicted', None)],
                                                    'read after own store') == 'evicted':
                 # the store may be a caller-supplied BOUNDED mapping (the LRU of the docstring): between this caller's
@@ -417,7 +422,10 @@ def install_wrapper_stubs(E, ctx, R, my, opts):
         if o is ctx.cache_obj:
             key_ok(k, node)
             access('key in _cache')
-            return R.cur().c_has
+            if E.branch(R.cur().c_has):
+                st['cache_seen_present'] = True
+                return True
+            return False
         raise Unsupported('in %r' % (o,), node)
     Bn['__contains__'] = contains
 
@@ -581,6 +589,28 @@ def install_wrapper_stubs(E, ctx, R, my, opts):
             return None
         st['user_calls'] = st.get('user_calls', 0) + 1
         st['user_args'] = (args, kwargs)
+        if E.choose([('coroutine', None), ('raises_when_called', None)], 'call of the wrapped function') != 'coroutine':
+            # the wrapped callable need not be an `async def`: a plain function that validates its arguments and then
+            # returns a coroutine (or an async def called with arguments that do not fit its signature) raises right
+            # here, at the call -- an invocation that failed, like any other
+            e = my.get('ev')
+            access('invoke')
+            s = R.cur()
+            E.oblige('%s/invoke.never_invoked_again_after_a_success' % Q, z3.Not(s.succeeded), props={'C01', 'C14'})
+            E.oblige('%s/invoke.only_while_holding_the_in_flight_marker' % Q,
+                     z3.And(z3.BoolVal(e is not None), s.m_has, s.m_ev == e if e is not None else z3.BoolVal(False),
+                            s.st[e] == 1 if e is not None else z3.BoolVal(False)), props={'C01'})
+            if e is None:
+                raise PathEnd()
+            R.set(st=z3.Store(s.st, e, 2), live=z3.Store(s.live, e, True))
+            st['invoked'] = True
+            R.point('task', 'wrapped function raises when called')
+            s = R.cur()
+            R.set(st=z3.Store(s.st, e, 5), live=z3.Store(s.live, e, False))
+            c = E.fresh('user_exc', ClsS)
+            E.need_hierarchy()
+            E.assume(sub(c, EXC['Exception'].term))
+            raise PyExc(VExc(c, (), info={'origin': 'own-invocation'}))
         return aio.mk_awaitable('user_invocation')
     Bn['__call__'] = call_user
 
@@ -1023,6 +1053,7 @@ def t_keys(E):
                 raise _Stop()
             return None
         E.builtins['__getitem__'] = getitem
+        E.builtins['__contains__'] = lambda E_, o, k, node: getitem(E_, o, k, node) if o is ctx.cache_obj else None
         try:
             E.await_(E.call(ctx.wrapper, [VStar(args)], {'**': VVal(kw)}), None)
         except _Stop:
